@@ -17,6 +17,7 @@ import Proofs.PairSetupOrigin
 import Proofs.PairSetupSym
 import Proofs.PairSetupHybrid
 import Proofs.PairSetupMitm
+import Proofs.PairSetupHybridMitm
 import HapModel.Gen.SrpGroup
 namespace Hap.C01
 open Hap Hap.Tlv Hap.Srp Hap.PairSetup
@@ -419,6 +420,59 @@ theorem C01_mitm_pairing_origin (s : PairSetupMitm.MState) (hr : PairSetupMitm.M
     ¬ PairSetupSym.Der s.kn PairSetupSym.Tm.code :=
   PairSetupMitm.mitm_secure s hr
 
+/-- **End to end: executable accessory + Dolev–Yao attacker in the middle + honest controller.**
+    The accessory is `PairSetup.step` on bytes (the model tied to pyhap).  The attacker sends arbitrary
+    request bytes in any order; only the `A` / proof items of a complete M3 denote terms derivable from what
+    it has seen — the accessory's M2 and M4, and everything the honest controller (which knows the code)
+    emits: `A = g^a`, its proof, its M5 ciphertext, for any exchange whose `B` it was handed.  Hardness is
+    the one hypothesis `NoForgeE` (a term computable from public values and honest blobs that denotes the
+    proof expected for `A ≢ 0` in an exchange made from a public salt atom and a secret atom IS that term).
+    Then along EVERY run, for every served request:
+    * O1 (the accessory's proof) is issued only for the `A = g^a` of an honest controller session run
+      against the exchange open at that moment (relay), never for an attacker's own `A` and never for an
+      honest M3 replayed into another exchange;
+    * O2 / O3 answer an M5 that opens under the session key of the REFERENCE CONTROLLER (`Srp.client`, the
+      exchange's code and salt, secret `a`) of such a session — its own `K = H(S)` — and record exactly the
+      identifier and long-term key inside that M5 (`AcceptedM5`).
+    What is left to cryptography: sealing under `K` needs `K` (AEAD), `K` needs the code or `b` (SRP-6a). -/
+theorem C01_end_to_end (I : PairSetupHybrid.Interp) (hpub : PairSetupHybrid.PubConst I)
+    (hnf : PairSetupHybridMitm.NoForgeE I) (hN : 0 < I.cfg.G.N) (ps0 : PS)
+    (hv : ps0.verifier = none) (hc : ps0.pincode = I.code)
+    (s : PairSetupHybridMitm.XState) (es : List XEvent)
+    (hr : PairSetupHybridMitm.XReach I
+      ⟨ps0, Ghost.init, fun t => ∃ n, t = PairSetupSym.Tm.nonce n, fun _ => False, fun _ => False, none, 0⟩ s es) :
+    ∀ x ∈ es,
+      x.post = (step I.cfg x.pre x.req).1 ∧ x.out = (step I.cfg x.pre x.req).2.1 ∧
+      (isO1 x.out = true → ∃ h : PairSetupMitm.HSess, s.hon h ∧
+          x.g.exch = some ⟨I.code, PairSetupHybrid.interp I h.salt, bytesToNat (PairSetupHybrid.interp I h.b)⟩ ∧
+          reqA x.req = some (natToBytes (powMod I.cfg.G.g (bytesToNat (PairSetupHybrid.interp I h.a)) I.cfg.G.N))) ∧
+      ((isO2 x.out = true ∨ x.post.paired ≠ x.pre.paired) → ∃ h : PairSetupMitm.HSess, s.hon h ∧
+          x.g.exch = some ⟨I.code, PairSetupHybrid.interp I h.salt, bytesToNat (PairSetupHybrid.interp I h.b)⟩ ∧
+          AcceptedM5 I.cfg
+            (client I.cfg.c.H I.cfg.G SRP_USER I.code (PairSetupHybrid.interp I h.salt)
+              (srvOf I.cfg ⟨I.code, PairSetupHybrid.interp I h.salt, bytesToNat (PairSetupHybrid.interp I h.b)⟩).Bb
+              (bytesToNat (PairSetupHybrid.interp I h.a))).K
+            x.pre x.req x.post) := by
+  obtain ⟨_, _, hall⟩ := PairSetupHybridMitm.xhybrid_secure I hpub hnf _ s es
+    (PairSetupHybridMitm.xinit I ps0 hv hc) hr
+  intro x hx
+  obtain ⟨h1, h2, h3, h4⟩ := hall x hx
+  refine ⟨h1, h2, ?_, ?_⟩
+  · intro ho
+    obtain ⟨h, hh, r1, r2⟩ := h3 ho
+    exact ⟨h, hh, r1, r2⟩
+  · intro ho
+    obtain ⟨h, hh, r1, r2⟩ := h4 ho
+    refine ⟨h, hh, r1, ?_⟩
+    obtain ⟨_, _, hK, _, _⟩ := sess_agree I.cfg.c.H I.cfg.G SRP_USER I.code (PairSetupHybrid.interp I h.salt)
+      (bytesToNat (PairSetupHybrid.interp I h.a)) (bytesToNat (PairSetupHybrid.interp I h.b)) hN
+    have e : (sessOf I.cfg (PairSetupHybrid.exchOf I (h.salt, h.b))
+        (PairSetupHybrid.interp I (PairSetupSym.Tm.gexp h.a))).Kb
+        = (client I.cfg.c.H I.cfg.G SRP_USER I.code (PairSetupHybrid.interp I h.salt)
+            (srvOf I.cfg ⟨I.code, PairSetupHybrid.interp I h.salt, bytesToNat (PairSetupHybrid.interp I h.b)⟩).Bb
+            (bytesToNat (PairSetupHybrid.interp I h.a))).K := hK
+    rw [← e]; exact r2
+
 /-- the same symbolic accessory without the `A ≠ zero` test (the shipped code): an attacker knowing only
     public values gets its own key paired (`A = zero`, proof from public data, M5 under `H(zero)`). -/
 theorem C01_symbolic_legacy_attack :
@@ -544,5 +598,54 @@ example :
 example : ∃ s, PairSetupMitm.MReach PairSetupMitm.init s ∧ s.verified = true ∧
     s.paired = some (PairSetupSym.Tm.nonce 50, PairSetupSym.Tm.pk (PairSetupSym.Tm.sec 101)) :=
   PairSetupMitm.mitm_honest_run
+
+/-- `C01_end_to_end` is not vacuous: on the toy instance the attacker opens an exchange, hands its `B` to the
+    honest controller, relays the controller's M3 — and the executable accessory answers with its proof
+    (O1 does occur, for the honest `A`) -/
+example :
+    let I : PairSetupHybrid.Interp :=
+      { cfg := { G := { N := 23, g := 5, nLen := 8 }, c := toyCrypto }, code := [2],
+        nonceB := fun n => if n = 0 then xorBytes (toyCrypto.H (natToBytes 23)) (toyCrypto.H (natToBytes 5)) ++ toyCrypto.H SRP_USER
+                           else [3], secB := fun n => if n = 100 then [4] else [6] }
+    let ps0 : PS := { pincode := [2], mac := [9], ltpk := [7], paired := [], verifier := none }
+    ∃ s es, PairSetupHybridMitm.XReach I
+        ⟨ps0, Ghost.init, fun t => ∃ n, t = PairSetupSym.Tm.nonce n, fun _ => False, fun _ => False, none, 0⟩ s es ∧
+      es.map (fun x => isO1 x.out) = [true, false] := by
+  intro I ps0
+  let s0 : PairSetupHybridMitm.XState :=
+    ⟨ps0, Ghost.init, fun t => ∃ n, t = PairSetupSym.Tm.nonce n, fun _ => False, fun _ => False, none, 0⟩
+  let r1 : Req := ⟨ctrlM1, [3], [6]⟩
+  have st1 := PairSetupHybridMitm.XStep.req (I := I) s0 r1 none
+    (PairSetupHybridMitm.XSendable.other r1 (by decide +kernel)) (by decide +kernel) (by decide +kernel)
+  let s1 : PairSetupHybridMitm.XState :=
+    { s0 with ps := (step I.cfg s0.ps r1).1, g := gNext I.cfg s0.ps s0.g r1,
+              kn := PairSetupHybridMitm.learnOpt s0.kn (PairSetupHybridMitm.ansTerm s0 none (step I.cfg s0.ps r1).2.1),
+              em := PairSetupHybridMitm.learnOpt s0.em (PairSetupHybridMitm.blobOf s0 none (step I.cfg s0.ps r1).2.1),
+              cur := PairSetupHybridMitm.xcurNext s0 (step I.cfg s0.ps r1).2.1, n := s0.n + 1 }
+  have ho1 : (step I.cfg s0.ps r1).2.1 = .m2 [3] (Srp.mk toyCrypto.H I.cfg.G SRP_USER [2] [3] 6).Bb := by
+    decide +kernel
+  let salt := PairSetupSym.Tm.nonce 4
+  let b := PairSetupSym.Tm.sec 0
+  have dB : PairSetupSym.Der s1.kn (PairSetupSym.Tm.bval salt b) := by
+    show PairSetupSym.Der (PairSetupHybridMitm.learnOpt s0.kn
+      (PairSetupHybridMitm.ansTerm s0 none (step I.cfg s0.ps r1).2.1)) _
+    rw [ho1]
+    exact PairSetupSym.Der.snd (PairSetupSym.Der.ax (Or.inr rfl))
+  let x : PairSetupMitm.HSess := ⟨salt, b, .sec 100, .nonce 50, .sec 101⟩
+  have st2 := PairSetupHybridMitm.XStep.hm3 (I := I) s1 x dB
+  let s2 : PairSetupHybridMitm.XState :=
+    { s1 with kn := PairSetupSym.learn (PairSetupSym.learn s1.kn (.gexp x.a)) (PairSetupSym.expM x.salt x.b (.gexp x.a)),
+              em := PairSetupSym.learn s1.em (PairSetupSym.expM x.salt x.b (.gexp x.a)),
+              hon := fun y => s1.hon y ∨ y = x }
+  let At := PairSetupSym.Tm.gexp x.a
+  let Mt := PairSetupSym.expM x.salt x.b At
+  let r2 : Req := ⟨ctrlM3 (PairSetupHybrid.interp I At) (PairSetupHybrid.interp I Mt), [3], [6]⟩
+  have st3 := PairSetupHybridMitm.XStep.req (I := I) s2 r2 (some (At, Mt))
+    (PairSetupHybridMitm.XSendable.sym r2 At Mt (PairSetupSym.Der.ax (Or.inl (Or.inr rfl)))
+      (PairSetupSym.Der.ax (Or.inr rfl)) (by decide +kernel) (by decide +kernel))
+    (by decide +kernel) (by decide +kernel)
+  refine ⟨_, _, PairSetupHybridMitm.XReach.step _ (PairSetupHybridMitm.XReach.step _
+    (PairSetupHybridMitm.XReach.step _ PairSetupHybridMitm.XReach.refl st1) st2) st3, ?_⟩
+  decide +kernel
 
 end Hap.C01
